@@ -154,3 +154,98 @@ def rat(x: float) -> str:
     if f.denominator == 1:
         return f"({f.numerator} : ℚ)" if f.numerator >= 0 else f"(({f.numerator}) : ℚ)"
     return f"(({f.numerator} : ℚ) / {f.denominator})"
+
+
+# ---------------------------------------------------------------------------------------------------------------------------------------
+# straight-line REAL-valued code (scalar parts of numerical routines): `name = expr`, `if cond: return False`, over + - * /, unary minus,
+# float literals, comparisons, and a small vocabulary of torch calls.  The result is a chain of `let`s; every number is an element of the
+# scalar type `α` of the Lean model (literals through `OfScientific`, exactly as the hand-written models write them).
+
+_CALLS = {"torch.sqrt": "sqrt", "torch.exp": "exp", "torch.expm1": "expm1", "math.sqrt": "sqrt", "math.exp": "exp"}
+
+
+def _rexpr(e: ast.AST, env: Dict[str, str]) -> str:
+    key = ast.unparse(e)
+    if key in env and not isinstance(e, ast.Constant):
+        return env[key]
+    if isinstance(e, ast.Constant) and isinstance(e.value, (int, float)) and not isinstance(e.value, bool):
+        v = e.value
+        if isinstance(v, int):
+            return f"({v} : α)"
+        txt = repr(float(v))
+        return f"({txt} : α)"
+    if isinstance(e, ast.BinOp) and isinstance(e.op, (ast.Add, ast.Sub, ast.Mult, ast.Div)):
+        op = {ast.Add: "+", ast.Sub: "-", ast.Mult: "*", ast.Div: "/"}[type(e.op)]
+        return f"({_rexpr(e.left, env)} {op} {_rexpr(e.right, env)})"
+    if isinstance(e, ast.UnaryOp) and isinstance(e.op, ast.USub):
+        return f"(-{_rexpr(e.operand, env)})"
+    if isinstance(e, ast.Call):
+        fn = ast.unparse(e.func)
+        if fn in _CALLS and len(e.args) == 1:
+            return f"({_CALLS[fn]} {_rexpr(e.args[0], env)})"
+        if fn == "torch.where" and len(e.args) == 3:
+            return f"(if {_rcond(e.args[0], env)} then {_rexpr(e.args[1], env)} else {_rexpr(e.args[2], env)})"
+        if fn == "torch.ones_like" and len(e.args) == 1:
+            return "(1 : α)"
+        if fn == "torch.as_tensor" and e.args:
+            return _rexpr(e.args[0], env)
+    raise Untranslatable(f"real expression {key}")
+
+
+def _rcond(e: ast.AST, env: Dict[str, str]) -> str:
+    if isinstance(e, ast.Compare) and len(e.ops) == 1:
+        op = {ast.Lt: "<", ast.LtE: "≤", ast.Gt: ">", ast.GtE: "≥"}.get(type(e.ops[0]))
+        if op is None:
+            raise Untranslatable(ast.dump(e))
+        return f"({_rexpr(e.left, env)} {op} {_rexpr(e.comparators[0], env)})"
+    raise Untranslatable(f"real condition {ast.unparse(e)}")
+
+
+def mentions(e: ast.AST, names) -> bool:
+    return any(isinstance(n, (ast.Name, ast.Attribute)) and ast.unparse(n) in names for n in ast.walk(e))
+
+
+def translate_real_block(stmts: List[ast.stmt], env: Dict[str, str], result: str, reductions=("torch.sum",)) -> str:
+    """`env`: source text -> Lean name of the inputs.  Assignments to plain names whose right-hand side is a reduction over tensors
+    (`torch.sum(...)`) must already be in `env` (they are inputs of the scalar part) and are skipped; other assignments that mention a tracked name
+    become `let`s; `if <cond on tracked names>: return False` becomes `if cond then none else`; statements that mention no tracked name are skipped
+    (argument checks, dictionary look-ups); the block ends at `result`, the name whose value is returned as `some result`."""
+    env = dict(env)
+    lines: List[str] = []
+    done = False
+
+    def walk(body):
+        nonlocal done
+        for n in body:
+            if done:
+                return
+            if isinstance(n, ast.Expr) and isinstance(n.value, ast.Constant):
+                continue
+            if isinstance(n, ast.With):
+                walk(n.body)
+                continue
+            if isinstance(n, ast.Assign) and len(n.targets) == 1 and isinstance(n.targets[0], ast.Name):
+                t = n.targets[0].id
+                if any(ast.unparse(c.func) in reductions for c in ast.walk(n.value) if isinstance(c, ast.Call)):
+                    if t not in env:
+                        raise Untranslatable(f"reduction `{t}` is not a declared input")
+                    continue
+                if mentions(n.value, env.keys()) or t in env:
+                    lines.append(f"let {t} := {_rexpr(n.value, env)}")
+                    env[t] = t
+                    if t == result:
+                        done = True
+                continue
+            if isinstance(n, ast.If) and mentions(n.test, env.keys()):
+                if len(n.body) == 1 and isinstance(n.body[0], ast.Return) and ast.unparse(n.body[0].value) in ("False", "None") and not n.orelse:
+                    lines.append(f"if {_rcond(n.test, env)} then none else")
+                    continue
+                raise Untranslatable(f"branch on a tracked value: {ast.unparse(n)[:80]}")
+            if any(mentions(n, [k]) for k in env.keys() if k.isidentifier()) and not isinstance(n, (ast.Return, ast.Expr)):
+                # a tracked scalar used in some other statement before the result is reached (e.g. an in-place modification): refuse
+                if isinstance(n, (ast.AugAssign, ast.For, ast.While)):
+                    raise Untranslatable(f"statement on tracked values: {ast.unparse(n)[:80]}")
+    walk(stmts)
+    if not done:
+        raise Untranslatable(f"result `{result}` is never assigned")
+    return "\n  ".join(lines) + f"\n  some {result}"
